@@ -128,6 +128,17 @@ Theorem send_waits_for_writability :
 Proof. exact send_iter_write_waits. Qed.
 Print Assumptions send_waits_for_writability.
 
+(* A zero (or exhausted) budget means "do not wait", not "cannot complete": if no send()/sendmsg() call ever reports
+   would-block, send_all / send_all_from_iterable never raise TimeoutError, whatever the timeout -- 0 included, and also
+   when call costs eat the budget between two partial writes. *)
+Theorem no_would_block_no_timeout :
+  forall (drop_empty has_sendmsg : bool) (iov : Z) (F fuel : nat) (ri : tmo) (chunks : list bytes) (T : tmo)
+         (s : sock) (sels : list selans),
+    Forall (fun a => match a with SBlock _ _ => False | _ => True end) (sk_script s) ->
+    sr_out (send_iter drop_empty has_sendmsg iov F fuel ri chunks T s sels) <> SExc E_TIMEOUT.
+Proof. exact send_iter_never_blocks. Qed.
+Print Assumptions no_would_block_no_timeout.
+
 (* Client level (TCPNetworkClient / UDPNetworkClient.send_packet behind the send lock, IO/ClientLocks.v): whatever
    the interleaving of calls, grants, give-ups and failing bodies, once every call has ended both locks are free --
    so a later send_packet never burns its budget on a lock nobody holds -- and a send never waits on the receive lock. *)
